@@ -361,6 +361,11 @@ pub proof fn axiom_tz_pow2(k: nat)
 
 #[verifier::external_body]
 pub fn fmt_stub() -> String { String::new() }
+pub assume_specification<T> [std::option::Option::<T>::replace] (o: &mut std::option::Option<T>, v: T) -> (r: std::option::Option<T>)
+    ensures r == *old(o), *final(o) == Some(v);
+// R16: io::Error::new(kind, msg) -> io_error_stub(): kind and message of an io::Error are not modelled
+#[verifier::external_body]
+pub fn io_error_stub() -> std::io::Error { std::io::Error::new(std::io::ErrorKind::Other, "") }
 
 // ---- the frame-relation axioms (in their own module so that every module, including the crate root,
 // can `broadcast use` them) ---------------------------------------------------------------------
